@@ -1,6 +1,27 @@
 """Per-property configuration for bin/check."""
 
 PROPS = {
+    "C05": dict(
+        driver="C05",
+        model="Model/CqRing.v",
+        run_fn="run_cqcase",
+        release_too=True,
+        theorems=["C05_cq_exactly_once_in_order", "C05_cq_reads_published_only",
+                  "C05_cq_kernel_never_overwrites_unread", "C05_cq_poll_drains_ring",
+                  "C05_cq_internal_never_dispatched"],
+        rule="one splitmix64 stream per case: CQ of 1..16 entries on the simulated kernel, both ring counters "
+             "starting at boundary values (0, 2^31-1.., 2^32-k) or random, 1..20 real write operations held in "
+             "flight, a script of postings (operation completions in any order with unique results, user_data 0-3 "
+             "bookkeeping entries, IORING_CQE_F_SKIP entries pointing at a trap) between polls, before the k-th "
+             "operation entry inside a poll and before the head store; overflow list when the ring is full; "
+             "non-trivial = at least 2 completions posted; distinct by the Coq case term",
+        assumptions=["kernel contract K3 (CQEs written only into free slots, published by the tail, NODROP overflow) "
+                     "as implemented by the simulated kernel",
+                     "CQ sizes below 2^32 entries (the kernel caps them far lower)",
+                     "sequentially consistent interleaving of kernel postings with the poll loop at hook-B points"],
+        trusted=["simulated kernel harness/src/simk.rs (twin of the kernel contract K1-K8)",
+                 "a10 verif hooks A/B (src/verif.rs)"],
+    ),
     "C14": dict(
         driver="C14",
         model="Model/BufTraits.v",
